@@ -45,6 +45,34 @@ pub fn exec(rest: &str, out: &mut Out) -> (String, bool) {
             out.oracle(p.unordered_eq(q) == r && q.unordered_eq(p) == r && (Unordered(p.clone()) == Unordered(q.clone())) == r, "Object's own impl agrees with Value's", || String::new());
         }
     }
+    // composition: the same right-hand value after in-place surgery that leaves its entries unchanged —
+    // a temporary entry pushed and removed again, entries popped from the end and pushed back, at the
+    // root and one level down (the key index has then lived through removals and shifts)
+    {
+        fn operated(v: &Value, depth: usize) -> Value {
+            match v {
+                Value::Object(o) => {
+                    let es: Vec<(json_syntax::object::Key, Value)> = o.entries().iter().map(|e| (e.key.clone(), if depth > 0 { operated(&e.value, depth - 1) } else { e.value.clone() })).collect();
+                    let mut n = Object::new();
+                    let mid = es.len() / 2;
+                    for (i, (k, v)) in es.iter().enumerate() {
+                        if i == mid { n.push("~tmp~".into(), Value::Null); if let Some((k0, _)) = es.first() { n.push(k0.clone(), Value::Boolean(false)); } }
+                        n.push(k.clone(), v.clone());
+                    }
+                    if es.is_empty() { n.push("~tmp~".into(), Value::Null); }
+                    // remove the temporaries: the duplicate of the first key by position, `~tmp~` by key
+                    if !es.is_empty() { n.remove_at(mid + 1); }
+                    let _ = n.remove("~tmp~").count();
+                    Value::Object(n)
+                }
+                Value::Array(a) => Value::Array(a.iter().map(|x| operated(x, depth)).collect()),
+                other => other.clone(),
+            }
+        }
+        let y2 = operated(&y, 1);
+        out.oracle(y2 == y, "surgery that restores the entries restores equality", || show_value(&y2));
+        out.oracle(x.unordered_eq(&y2) == r && y2.unordered_eq(&x) == r && y2.unordered_eq(&y) && y.unordered_eq(&y2), "unordered_eq does not depend on the operations the object has been through", || format!("reference {} / after surgery {} {}", r, x.unordered_eq(&y2), y2.unordered_eq(&x)));
+    }
     out.count(if r { "equal" } else { "different" });
     if r && x != y { out.count("equal_but_reordered"); }
     (r.to_string(), x != y)
